@@ -434,7 +434,14 @@ def stateful_loop(it, coll, k, n, spec, modified, body_once, env, entry, entry_v
             cur = store0[sid]["attrs"].get(key[2])
             hs[key] = havoc_like(ctx, cur, f"s_attr_{key[2]}")
         else:
-            hs[key] = havoc_like(ctx, store0[sid][fld], f"s_{fld}{sid[1]}")
+            cur = store0[sid][fld]
+            srt = None
+            for nm, val in entry_vars.items():
+                if getattr(val, "id", None) == sid and nm in getattr(spec, "sorts", {}):
+                    srt = spec.sorts[nm]
+            if srt is not None and isinstance(cur, Seq):
+                cur = Seq(cur.len, None, srt)       # element sort declared by the contract
+            hs[key] = havoc_like(ctx, cur, f"s_{fld}{sid[1]}")
 
     def install_state(benv=None, kterm=None):
         for name, v in hv.items():
@@ -560,8 +567,20 @@ def link_next(ctx, k, hv, hh, hs, vars_, heap, store):
 
 def value_eq(ctx, a, b):
     """Formula a == b for state components (None when not expressible)."""
-    from .interp import SMap, SSet
+    from .interp import SMap, SSet, PyList
     from .models import to_v
+    if isinstance(a, Seq) and isinstance(b, PyList) and not b.items:
+        return zint(a.len) == 0
+    if isinstance(b, Seq) and isinstance(a, PyList) and not a.items:
+        return zint(b.len) == 0
+    if isinstance(a, Seq) and isinstance(b, Seq) and a.sort is not None and b.sort is None:
+        from .models import unstructure
+        try:
+            b = unstructure(b)
+        except Unsupported:
+            return None
+        if b.sort != a.sort:
+            return None
     if is_z3(a) or is_z3(b) or isinstance(a, (bool, int)) or a is None or isinstance(a, str):
         try:
             za, zb = lift(a, b)
